@@ -536,6 +536,13 @@ impl Edit {
 
     /// Set the info field `c` to `s`.
     pub fn info(&mut self, c: char, s: &str) -> Result<(), SError> {
+        // '+' and '-' are the add/remove markers of the on-disk format; an info line keyed by
+        // either would be read back as an add or a remove.
+        if c == '+' || c == '-' {
+            return Err(newline_disallowed(
+                "info keys must not be '+' or '-', which mark adds and removes",
+            ));
+        }
         Self::check_str(&c.to_string())?;
         let s = Self::check_str(s)?;
         self.info.insert(c, s);
@@ -551,6 +558,12 @@ impl Edit {
         if s.chars().any(|c| c == '\n') {
             Err(newline_disallowed(
                 "added strings must not contain newlines",
+            ))
+        } else if s.chars().any(|c| c == '\r' || !c.is_ascii()) {
+            // The reader works line-by-line (which strips a trailing carriage return, breaking
+            // the checksum) and rejects non-ASCII lines.  Refuse what cannot be read back.
+            Err(newline_disallowed(
+                "added strings must be ASCII and must not contain carriage returns",
             ))
         } else {
             Ok(s.to_owned())
@@ -616,7 +629,7 @@ impl Iterator for ManifestIterator {
             }
             if line == TX_SEPARATOR {
                 return Some(Ok(edit));
-            } else if line.len() > 9 {
+            } else if line.len() >= 9 {
                 let crc32c_expected = match u32::from_str_radix(&line[..8], 16) {
                     Ok(crc32c_expected) => crc32c_expected,
                     Err(err) => {
